@@ -390,6 +390,16 @@ def run(ctx):
                 ctx.count('chain_cases' if (name, ids) in CHAIN_SHAPES else 'assoc_cases')
                 ctx.add('shapes', name)
                 compare_case(ctx, dec, msg, 'shape', name, enc=enc)
+    # (c2) same layout, different owners: uncompressed subsets with identical descriptor lists whose bitmaps differ
+    k = 0
+    for nsub in (2, 3, 4):
+        for name, msg in cases.same_layout_cases(rng, nsub=nsub, edition=[4, 3, 2][nsub % 3]):
+            k += 1
+            if not ctx.mine(k):
+                continue
+            ctx.count('same_layout_cases')
+            ctx.add('shapes', name)
+            compare_case(ctx, dec, msg, 'shape', name, enc=enc)
     # (d) explicit 031031 lists
     k = 0
     for N in range(1, 6):
